@@ -315,3 +315,209 @@ def _(v):
             back = conv[given].subs(sp.Symbol(var), c)
             v.ground("%s.%s_from_%s.inverts_the_reported_convention" % (w, var, given), sp.simplify(back - sp.Symbol(given)) == 0,
                      "reader reports %s = %s; with the parser's %s = %s this gives %s" % (given, conv[given], var, c, sp.simplify(back)))
+
+
+# ---------------------------------------------------------------------------- arguments reach the parameter of the same name
+@P.task("parsers.arguments_match_parameter_names", fn=CFN)
+def _(v):
+    """The front ends collect elements in variables named after the element (a, e, inc, Omega, omega, f, h, k, ix, iy, ...) and
+    pass them on positionally.  Structural contract over the real sources of src/tools.c and src/particle.c: whenever an argument
+    is a plain variable whose name is also the name of a parameter of the callee, it is passed in THAT parameter's position
+    (passing `h` where the callee expects `k` compiles, and builds a different orbit)."""
+    from engine import frames
+    from engine import cfront as _cf
+    bad, checked = [], 0
+    protos = {}
+    tus = [_cf.tu(f, REPO) for f in ("src/tools.c", "src/particle.c")]
+    for tu in tus:
+        for name, fn in list(getattr(tu, "functions", {}).items()) + list(getattr(tu, "protos", {}).items()):
+            ps = [c.get("name") for c in fn.get("inner", ()) if isinstance(c, dict) and c.get("kind") == "ParmVarDecl"]
+            if ps and all(ps) and (name not in protos or len(ps) >= len(protos[name])):
+                protos[name] = ps
+    for tu in tus:
+        for name, fn in tu.functions.items():
+            for n in frames.walk(fn):
+                if n.get("kind") != "CallExpr":
+                    continue
+                callee = frames.callee_name(n)
+                ps = protos.get(callee)
+                if not ps:
+                    continue
+                for k, a in enumerate(n["inner"][1:]):
+                    a = frames.strip_casts(a)
+                    if a.get("kind") != "DeclRefExpr" or k >= len(ps):
+                        continue
+                    an = a.get("referencedDecl", {}).get("name")
+                    if an in ps:
+                        checked += 1
+                        if ps[k] != an and ps.count(an) == 1 and ps[k] in [frames.strip_casts(x).get("referencedDecl", {}).get("name")
+                                                                             for x in n["inner"][1:] if frames.strip_casts(x).get("kind") == "DeclRefExpr"]:
+                            # both names occur among the arguments and are exchanged relative to the parameter list
+                            bad.append("%s: %s(... %s in the position of parameter %s ...)" % (name, callee, an, ps[k]))
+    v.ground("some_call_sites_checked", checked >= 20, "arguments compared with parameter names: %d" % checked)
+    v.ground("no_argument_in_the_position_of_another_parameter", not bad, "; ".join(bad[:6]))
+
+
+# ---------------------------------------------------------------------------- Python aliases are folded before they are used
+@P.task("parsers.python_aliases_folded_before_use", fn=CFN)
+def _(v):
+    """Particle.__init__ documents pal_h / pal_k / pal_ix / pal_iy as alternative spellings of h / k / ix / iy.  The alias is folded
+    into the short name by `if pal_h is not None: ... h = pal_h`.  Def-use contract on the real Python AST: inside __init__, every
+    read of h / k / ix / iy other than the `is not None` guard of its own folding statement comes AFTER the folding (a decision
+    list built before it silently drops the aliases: the particle differs from the one built with the short names and from the C
+    front end)."""
+    src = open(os.path.join(REPO, "rebound", "particle.py")).read()
+    mod = ast.parse(src)
+    init = None
+    for node in ast.walk(mod):
+        if isinstance(node, ast.ClassDef) and node.name == "Particle":
+            for f in node.body:
+                if isinstance(f, ast.FunctionDef) and f.name == "__init__":
+                    init = f
+    v.ground("init_found", init is not None, "")
+    if init is None:
+        return
+    pairs = {"h": "pal_h", "k": "pal_k", "ix": "pal_ix", "iy": "pal_iy"}
+    for short, alias in pairs.items():
+        folds = []
+        for node in ast.walk(init):
+            if isinstance(node, ast.If) and isinstance(node.test, ast.Compare) and isinstance(node.test.left, ast.Name) \
+                    and node.test.left.id == alias:
+                for s in ast.walk(node):
+                    if isinstance(s, ast.Assign) and isinstance(s.targets[0], ast.Name) and s.targets[0].id == short \
+                            and isinstance(s.value, ast.Name) and s.value.id == alias:
+                        folds.append(node)
+        v.ground("%s.folding_statement_found" % alias, len(folds) == 1, "`if %s is not None: ... %s = %s`: %d" % (alias, short, alias, len(folds)))
+        if len(folds) != 1:
+            continue
+        fold = folds[0]
+        inside = {id(n) for n in ast.walk(fold)}
+        early = [n.lineno for n in ast.walk(init) if isinstance(n, ast.Name) and n.id == short and isinstance(n.ctx, ast.Load)
+                 and id(n) not in inside and n.lineno < fold.end_lineno]
+        v.ground("%s.no_read_of_%s_before_the_alias_is_folded" % (alias, short), not early,
+                 "reads of %s at lines %s, folding statement ends at line %d" % (short, early, fold.end_lineno))
+
+
+# ---------------------------------------------------------------------------- dimensional conversions (a from P, M from T)
+def _c_expr(n):
+    """C expression -> sympy (identifiers: r->G -> G, r->t -> t, primary.m -> m_primary); + - * /, sqrt, cbrt, fabs, literals"""
+    import sympy as sp
+    from engine import frames
+    n = _strip(n)
+    k = n.get("kind")
+    if k == "DeclRefExpr":
+        return sp.Symbol(n["referencedDecl"]["name"])
+    if k == "MemberExpr":
+        base = _strip(n["inner"][0])
+        bn = base.get("referencedDecl", {}).get("name") if base.get("kind") == "DeclRefExpr" else None
+        return sp.Symbol({"primary": "m_primary"}.get(bn, "") if n["name"] == "m" and bn == "primary" else n["name"])
+    if k in ("FloatingLiteral", "IntegerLiteral"):
+        val = sp.nsimplify(n.get("value"), rational=True)
+        return sp.pi if abs(float(val) - 3.141592653589793) < 1e-12 else val
+    if k == "UnaryOperator" and n.get("opcode") == "-":
+        return -_c_expr(n["inner"][0])
+    if k == "BinaryOperator" and n.get("opcode") in ("+", "-", "*", "/"):
+        a, b = _c_expr(n["inner"][0]), _c_expr(n["inner"][1])
+        return {"+": a + b, "-": a - b, "*": a * b, "/": a / b}[n["opcode"]]
+    if k == "CallExpr":
+        fn = frames.callee_name(n)
+        args = [_c_expr(a) for a in n["inner"][1:]]
+        if fn == "sqrt":
+            return sp.sqrt(args[0])
+        if fn == "cbrt":
+            return sp.cbrt(args[0])
+        if fn in ("fabs", "fastabs"):
+            return sp.Abs(args[0])
+    raise ValueError("unsupported C expression %s" % k)
+
+
+def _py_expr(n):
+    import sympy as sp
+    if isinstance(n, ast.Name):
+        return sp.Symbol(n.id)
+    if isinstance(n, ast.Attribute):
+        if isinstance(n.value, ast.Name) and n.value.id == "math" and n.attr == "pi":
+            return sp.pi
+        if isinstance(n.value, ast.Name) and n.value.id == "primary" and n.attr == "m":
+            return sp.Symbol("m_primary")
+        return sp.Symbol(n.attr)           # simulation.G -> G, simulation.t -> t, self.m -> m
+    if isinstance(n, ast.Constant):
+        if not isinstance(n.value, (int, float)) or isinstance(n.value, bool):
+            raise ValueError("non-numeric constant")
+        return sp.nsimplify(n.value, rational=True)
+    if isinstance(n, ast.UnaryOp) and isinstance(n.op, ast.USub):
+        return -_py_expr(n.operand)
+    if isinstance(n, ast.BinOp):
+        a, b = _py_expr(n.left), _py_expr(n.right)
+        if isinstance(n.op, ast.Add): return a + b
+        if isinstance(n.op, ast.Sub): return a - b
+        if isinstance(n.op, ast.Mult): return a * b
+        if isinstance(n.op, ast.Div): return a / b
+        if isinstance(n.op, ast.Pow): return a ** b
+    if isinstance(n, ast.Call) and isinstance(n.func, ast.Name) and n.func.id == "abs":
+        return sp.Abs(_py_expr(n.args[0]))
+    if isinstance(n, ast.Call) and isinstance(n.func, ast.Attribute) and n.func.attr == "sqrt":
+        return sp.sqrt(_py_expr(n.args[0]))
+    raise ValueError("unsupported Python expression " + ast.dump(n)[:80])
+
+
+@P.task("parsers.dimensional_conversions", fn=CFN)
+def _(v):
+    """a from the period P and the mean anomaly from the time of pericentre passage T involve G, the masses and the simulation time:
+    Kepler's third law  a^3 = G (m_primary + m) P^2 / (4 pi^2),  n = sqrt(G (m_primary + m)/|a|^3),  M = n (t - T).
+    Both front ends must use these formulas (the same particle from the same arguments in any unit system)."""
+    import sympy as sp
+    from engine import frames
+    tu, fn = v.eng.find_function(CFN)
+    G, mp, m, a, Pp, t, T = sp.symbols("G m_primary m a P t T")
+    spec_a = sp.cbrt(G * (mp + m) * Pp ** 2 / (4 * sp.pi ** 2))
+    spec_M = sp.sqrt(G * (mp + m) / sp.Abs(a ** 3)) * (t - T)
+    # ---- C
+    c_a, c_n, c_M = None, None, None
+    for n in frames.walk(tu.body(fn)):
+        if n.get("kind") == "BinaryOperator" and n.get("opcode") == "=":
+            lhs = _strip(n["inner"][0])
+            if lhs.get("kind") == "DeclRefExpr" and lhs["referencedDecl"]["name"] == "a":
+                try:
+                    e = _c_expr(n["inner"][1])
+                    if e.has(Pp):
+                        c_a = e
+                except ValueError:
+                    pass
+            if lhs.get("kind") == "DeclRefExpr" and lhs["referencedDecl"]["name"] == "M":
+                try:
+                    e = _c_expr(n["inner"][1])
+                    if e.has(T):
+                        c_M = e
+                except ValueError:
+                    pass
+        if n.get("kind") == "VarDecl" and n.get("name") == "n" and n.get("inner"):
+            try:
+                c_n = _c_expr(n["inner"][-1])
+            except ValueError:
+                pass
+    # ---- Python
+    src = open(os.path.join(REPO, "rebound", "particle.py")).read()
+    py_a, py_n, py_M = None, [], None
+    for node in ast.walk(ast.parse(src)):
+        if isinstance(node, ast.Assign) and isinstance(node.targets[0], ast.Name):
+            nm = node.targets[0].id
+            try:
+                e = _py_expr(node.value)
+            except ValueError:
+                continue
+            if nm == "a" and e.has(Pp):
+                py_a = e
+            if nm == "n" and (e.has(a) or e.has(Pp)):
+                py_n.append(e)
+            if nm == "M" and e.has(T):
+                py_M = e
+    ok = lambda x, y: x is not None and y is not None and sp.simplify(x - y) == 0
+    v.ground("c.a_from_P_is_keplers_third_law", ok(c_a, spec_a), "C: a = %s" % c_a)
+    v.ground("python.a_from_P_is_keplers_third_law", ok(py_a, spec_a), "Python: a = %s" % py_a)
+    n_sym = sp.Symbol("n")
+    cM = None if (c_M is None or c_n is None) else c_M.subs(n_sym, c_n)
+    v.ground("c.M_from_T", ok(cM, spec_M), "C: n = %s, M = %s" % (c_n, c_M))
+    v.ground("python.single_definition_of_the_mean_motion", len(py_n) == 1, "assignments to n: %s" % py_n)
+    pM = None if (py_M is None or len(py_n) != 1) else py_M.subs(n_sym, py_n[0])
+    v.ground("python.M_from_T", ok(pM, spec_M), "Python: n = %s, M = %s" % (py_n, py_M))
